@@ -51,6 +51,13 @@ pub struct Params {
     /// reads past the end of the tape continue pseudo-randomly (seeded from the tape) instead of
     /// with zeros: for stages whose cases need thousands of choices
     pub tail_random: bool,
+    /// probability (1/1000, per id space) that one or two ids are moved far up: solvable ids
+    /// up to 2^26, the others up to 2^19 (resolvo sizes a bit vector / a vector by them)
+    pub far_ids: u32,
+    /// probability (1/1000) that a union requirement gets 31..42 members instead of 2..3
+    /// (more than the 30 up to which `futures::try_join_all` keeps its simple strategy);
+    /// no tape value is read when this is 0, so older tapes keep their meaning
+    pub p_big_union: u32,
 }
 
 impl Default for Params {
@@ -85,6 +92,8 @@ impl Default for Params {
             p_perm_rank: 600,
             big_pkg: 0,
             tail_random: false,
+            far_ids: 0,
+            p_big_union: 0,
         }
     }
 }
@@ -274,6 +283,16 @@ impl Params {
         self
     }
 
+    pub fn with_big_unions(mut self, per_mille: u32) -> Self {
+        self.p_big_union = per_mille;
+        self
+    }
+
+    pub fn with_far_ids(mut self, per_mille: u32) -> Self {
+        self.far_ids = per_mille;
+        self
+    }
+
     pub fn no_hints(mut self) -> Self {
         self.hint_w = [1, 0, 0];
         self
@@ -381,7 +400,11 @@ impl Builder<'_> {
 
     fn new_req(&mut self, t: &mut Tape, from: Option<usize>, p_union: u32) -> Req {
         if t.chance(p_union, 1000) {
-            let k = 2 + t.below(2);
+            let k = if self.p.p_big_union > 0 && t.chance(self.p.p_big_union, 1000) {
+                31 + t.below(12)
+            } else {
+                2 + t.below(2)
+            };
             let mut members = vec![];
             for _ in 0..k {
                 let pkg = self.pick_target_pkg(t, from);
@@ -583,20 +606,38 @@ pub fn gen_problem(t: &mut Tape, u: &mut Universe, p: &Params) -> Problem {
 
 /// Assign ids to all five id spaces (call after the problem has been generated, since
 /// the problem may add version sets).
+fn move_far(t: &mut Tape, ids: &mut [u32], p: &Params, max_shift: usize) {
+    if p.far_ids == 0 || ids.is_empty() || !t.chance(p.far_ids, 1000) {
+        return;
+    }
+    for _ in 0..1 + t.below(2) {
+        let i = t.below(ids.len());
+        let far = (1u32 << (14 + t.below(max_shift - 13))) + t.below(4096) as u32;
+        let new = ids[i].wrapping_add(far);
+        if !ids.contains(&new) {
+            ids[i] = new;
+        }
+    }
+}
+
 pub fn gen_ids(t: &mut Tape, u: &mut Universe, p: &Params) {
     let ids = assign_ids(t, u.packages.len(), &p.id_w, p.max_id_gap);
+    let mut ids = ids;
+    move_far(t, &mut ids, p, 19);
     for (pk, id) in u.packages.iter_mut().zip(ids) {
         pk.name_id = id;
     }
     let ns = u.n_solvables();
-    let ids = assign_ids(t, ns, &p.id_w, p.max_id_gap / 3);
+    let mut ids = assign_ids(t, ns, &p.id_w, p.max_id_gap / 3);
+    move_far(t, &mut ids, p, 26);
     let mut it = ids.into_iter();
     for pk in u.packages.iter_mut() {
         for c in pk.cands.iter_mut().chain(pk.unlisted.iter_mut()) {
             c.sid = it.next().unwrap();
         }
     }
-    let ids = assign_ids(t, u.vsets.len(), &p.id_w, p.max_id_gap / 3);
+    let mut ids = assign_ids(t, u.vsets.len(), &p.id_w, p.max_id_gap / 3);
+    move_far(t, &mut ids, p, 19);
     for (v, id) in u.vsets.iter_mut().zip(ids) {
         v.id = id;
     }
@@ -759,7 +800,7 @@ pub fn gen_conflict_free(t: &mut Tape, p: &Params, with_hints: bool) -> (Univers
         if t.chance(p_union, 1000) {
             let first = target_first_vs(b, t, q, target[q]);
             let mut members = vec![first];
-            let k = 1 + t.below(2);
+            let k = if b.p.p_big_union > 0 && t.chance(b.p.p_big_union, 1000) { 30 + t.below(12) } else { 1 + t.below(2) };
             for _ in 0..k {
                 let q2 = t.below(np);
                 members.push(non_target_vs(b, t, q2, target[q2]));
